@@ -278,6 +278,50 @@ pub struct Sim {
     pub edit_ordinal: u64,
     /// every compaction the selector chose, with the store state it was chosen in
     pub chosen: Vec<(StateDump, lsmtk::verif::ChosenCompaction)>,
+    /// every tree step that was performed (compaction step, flush), in order, with the tree before
+    /// and after it (taken by `C01`)
+    pub applied: Vec<Applied>,
+    /// record `applied` (off unless a check asks: nothing changes for the other users of `Sim`)
+    pub record_applied: bool,
+    /// entries of files already read, by setsum (a file's name is the setsum of its contents);
+    /// filled by `dump`, read only by `levels_cached`
+    pub ent_cache: EntCache,
+}
+
+pub type EntCache = std::rc::Rc<std::cell::RefCell<std::collections::HashMap<[u8; 32], Vec<Ent>>>>;
+
+/// one performed step of the tree: `None` = a flush (`Version::ingest`), `Some(c)` = the
+/// compaction the selector returned (`Version::apply_compaction`); levels in the order the version
+/// holds them (`verif_dump`)
+#[derive(Clone, Debug)]
+pub struct Applied {
+    pub before: Vec<Vec<FileDump>>,
+    pub compaction: Option<lsmtk::verif::ChosenCompaction>,
+    pub after: Vec<Vec<FileDump>>,
+}
+
+/// the files of the current version, level by level in the order the version holds them, with the
+/// entries of each file (read once per setsum)
+pub fn levels_cached(kvs: &KeyValueStore, root: &str, cache: &EntCache) -> Result<Vec<Vec<FileDump>>, String> {
+    let mut levels = vec![];
+    for level in kvs.verif_tree().verif_dump() {
+        let mut files = vec![];
+        for md in level {
+            let hit = cache.borrow().get(&md.setsum).cloned();
+            let entries = match hit {
+                Some(e) => e,
+                None => {
+                    let path = lsmtk::SST_FILE(root, setsum::Setsum::from_digest(md.setsum));
+                    let e = read_sst(path.to_str().unwrap())?;
+                    cache.borrow_mut().insert(md.setsum, e.clone());
+                    e
+                }
+            };
+            files.push(FileDump { setsum: md.setsum, first_key: md.first_key.clone(), last_key: md.last_key.clone(), smallest_ts: md.smallest_timestamp, biggest_ts: md.biggest_timestamp, file_size: md.file_size, entries });
+        }
+        levels.push(files);
+    }
+    Ok(levels)
 }
 
 pub fn scratch_dir(tag: &str) -> String {
@@ -367,7 +411,7 @@ impl Sim {
     pub fn open(root: &str, cfg: &Cfg) -> Result<Sim, String> {
         let opts = cfg.options(root);
         let kvs = KeyValueStore::open(opts).map_err(|e| err_class(&e))?;
-        Ok(Sim { root: root.to_string(), cfg: cfg.clone(), kvs: Some(kvs), oracle: BTreeMap::new(), flushes: 0, compactions: 0, reopens: 0, stalled_unselectable: 0, verifier_passes: 0, verifier_backoffs: 0, last_verify: String::new(), last_verify_full: String::new(), probe_failures: vec![], probes_run: 0, frag_seen: BTreeMap::new(), sst_events: BTreeMap::new(), edit_ordinal: 0, chosen: vec![] })
+        Ok(Sim { root: root.to_string(), cfg: cfg.clone(), kvs: Some(kvs), oracle: BTreeMap::new(), flushes: 0, compactions: 0, reopens: 0, stalled_unselectable: 0, verifier_passes: 0, verifier_backoffs: 0, last_verify: String::new(), last_verify_full: String::new(), probe_failures: vec![], probes_run: 0, frag_seen: BTreeMap::new(), sst_events: BTreeMap::new(), edit_ordinal: 0, chosen: vec![], applied: vec![], record_applied: false, ent_cache: Default::default() })
     }
 
     pub fn kvs(&self) -> &KeyValueStore {
@@ -390,6 +434,22 @@ impl Sim {
         Ok(false)
     }
 
+    fn tree_before(&self) -> Option<Vec<Vec<FileDump>>> {
+        if self.record_applied {
+            levels_cached(self.kvs(), &self.root, &self.ent_cache).ok()
+        } else {
+            None
+        }
+    }
+
+    fn record_ingest(&mut self, before: Option<Vec<Vec<FileDump>>>) {
+        if let Some(before) = before {
+            if let Ok(after) = levels_cached(self.kvs(), &self.root, &self.ent_cache) {
+                self.applied.push(Applied { before, compaction: None, after });
+            }
+        }
+    }
+
     pub fn compact(&mut self, n: u64) -> Result<u64, String> {
         let mut total = 0;
         for _ in 0..n {
@@ -401,10 +461,16 @@ impl Sim {
             let k = chosen.len() as u64;
             self.compactions += k;
             total += k;
+            let performed = if r.is_ok() && chosen.len() == 1 { Some(chosen[0].clone()) } else { None };
             for c in chosen {
                 self.chosen.push((before.clone(), c));
             }
             r.map_err(|e| format!("compaction-error:{}", err_class(&e)))?;
+            if let (Some(c), true) = (performed, self.record_applied) {
+                if let Ok(after) = levels_cached(self.kvs(), &self.root, &self.ent_cache) {
+                    self.applied.push(Applied { before: before.levels, compaction: Some(c), after });
+                }
+            }
             if k == 0 {
                 break;
             }
@@ -421,11 +487,13 @@ impl Sim {
             return Ok(false);
         }
         self.kvs().verif_request_flush();
+        let before = self.tree_before();
         lsmtk::verif::set_single_step(Some(0));
         let r = self.with_probe(|s| s.kvs().memtable_thread());
         lsmtk::verif::set_single_step(None);
         r.map_err(|e| format!("flush-error:{}", err_class(&e)))?;
         self.flushes += 1;
+        self.record_ingest(before);
         Ok(true)
     }
 
@@ -436,11 +504,13 @@ impl Sim {
             if !self.relieve_stall()? {
                 return Ok(());
             }
+            let before = self.tree_before();
             lsmtk::verif::set_single_step(Some(0));
             let r = self.with_probe(|s| s.kvs().memtable_thread());
             lsmtk::verif::set_single_step(None);
             r.map_err(|e| format!("flush-error:{}", err_class(&e)))?;
             self.flushes += 1;
+            self.record_ingest(before);
         }
         Ok(())
     }
@@ -659,6 +729,7 @@ impl Sim {
                 let setsum = setsum::Setsum::from_digest(md.setsum);
                 let path = lsmtk::SST_FILE(&self.root, setsum);
                 let entries = read_sst(path.to_str().unwrap())?;
+                self.ent_cache.borrow_mut().insert(md.setsum, entries.clone());
                 files.push(FileDump { setsum: md.setsum, first_key: md.first_key.clone(), last_key: md.last_key.clone(), smallest_ts: md.smallest_timestamp, biggest_ts: md.biggest_timestamp, file_size: md.file_size, entries });
             }
             d.levels.push(files);
